@@ -295,6 +295,9 @@ def _create_epsilon_constraint_failures(
   assert constraint_metric in (0, 1)
 
   successful_points = points_sampled_values[numpy.logical_not(points_sampled_failures), :]
+  if len(successful_points) == 0:
+    # Without a successful observation there is no frontier to place the threshold on, so nothing is labelled by it
+    return numpy.zeros_like(points_sampled_failures, dtype=bool)
 
   epsilon_constraint_value = find_epsilon_constraint_value(epsilon, constraint_metric, successful_points)
   epsilon_constraint_failures = points_sampled_values[:, constraint_metric] >= epsilon_constraint_value
